@@ -97,14 +97,23 @@ func DefaultLCfg() LCfg {
 	}
 }
 
+type amtVar struct {
+	expr Expr
+	set  func(*big.Int)
+}
+
 type lgen struct {
 	r        *rng.R
 	cfg      LCfg
 	c        *Case
 	nvar     int
-	asset    string            // current statement asset
-	used     []string          // accounts used in the current source
-	acctVars map[string]string // value -> var name (reuse)
+	asset    string              // current statement asset
+	used     []string            // accounts used in the current source
+	acctVars map[string]string   // value -> var name (reuse)
+	numVars  map[string]string   // decimal text -> number variable holding it
+	porVars  map[string]string   // portion text -> portion variable holding it
+	monVars  map[string][]string // asset -> monetary variables of that asset (free-valued uses)
+	lastAmt  map[string]*amtVar  // asset -> a tunable amount variable of an earlier statement
 }
 
 func (g *lgen) pct(p int) bool { return p > 0 && g.r.Intn(100) < p }
@@ -197,14 +206,37 @@ func (g *lgen) numberExpr(n *big.Int, depth int) Expr {
 		return &Infix{Op: '-', L: g.numberExpr(new(big.Int).Add(n, k), depth-1), R: g.numberAtom(k)}
 	}
 	if !lit || g.pct(g.cfg.PVarAmt) {
-		return g.declare("number", g.fresh("n"), n.String())
+		return g.numberVar(n)
 	}
 	return &Num{Text: n.String()}
 }
 
+// freeMonetary writes a monetary expression whose value is the generator's to choose (caps,
+// overdraft bounds, saved amounts): either a fresh one or a monetary variable already in use.
+func (g *lgen) freeMonetary(asset string) Expr {
+	if vs := g.monVars[asset]; len(vs) > 0 && g.pct(30) {
+		return &Var{Name: rng.PickOf(g.r, vs)}
+	}
+	e, _ := g.monetaryExpr(asset, g.capValue(), false)
+	if v, ok := e.(*Var); ok {
+		g.monVars[asset] = append(g.monVars[asset], v.Name)
+	}
+	return e
+}
+
+func (g *lgen) numberVar(n *big.Int) Expr {
+	// the same number is usually written through the same variable (a variable used twice)
+	if name, ok := g.numVars[n.String()]; ok && g.r.Chance(3, 4) {
+		return &Var{Name: name}
+	}
+	name := g.fresh("n")
+	g.numVars[n.String()] = name
+	return g.declare("number", name, n.String())
+}
+
 func (g *lgen) numberAtom(n *big.Int) Expr {
 	if !(g.cfg.BigLiterals || fitsInt(n)) || g.pct(g.cfg.PVarAmt) {
-		return g.declare("number", g.fresh("n"), n.String())
+		return g.numberVar(n)
 	}
 	return &Num{Text: n.String()}
 }
@@ -303,11 +335,20 @@ func (g *lgen) portions(k int) []Allot {
 		case useRem && i == k-1:
 			out[i] = &AllotRemaining{}
 		case g.pct(g.cfg.PPortionVar):
+			key := p.String()
+			if name, ok := g.porVars[key]; ok && g.r.Chance(3, 4) {
+				out[i] = &AllotVar{V: &Var{Name: name}}
+				break
+			}
 			name := g.fresh("p")
 			txt := fmt.Sprintf("%d/%d", parts[i], den)
 			if parts[i]*100%den == 0 && g.r.Bool() {
 				txt = fmt.Sprintf("%d%%", parts[i]*100/den)
+			} else if parts[i]*1000%den == 0 && g.r.Bool() {
+				v := parts[i] * 1000 / den
+				txt = fmt.Sprintf("%d.%d%%", v/10, v%10)
 			}
+			g.porVars[key] = name
 			out[i] = &AllotVar{V: g.declare("portion", name, txt)}
 		default:
 			out[i] = &AllotLit{Lit: g.portionLit(p)}
@@ -333,9 +374,7 @@ func (g *lgen) srcLeaf(allowUnbounded bool) Source {
 			g.c.Tags["unbounded:"+name] = true
 			return &SrcOverdraft{Addr: g.accountExpr(name)}
 		}
-		b := g.capValue()
-		e, _ := g.monetaryExpr(g.asset, b, false)
-		return &SrcOverdraft{Addr: g.accountExpr(name), Bounded: e}
+		return &SrcOverdraft{Addr: g.accountExpr(name), Bounded: g.freeMonetary(g.asset)}
 	}
 	return &SrcAccount{E: g.accountExpr(name)}
 }
@@ -358,9 +397,7 @@ func (g *lgen) source(depth int, all bool) Source {
 		}
 		return s
 	case w < g.cfg.PSrcSeq+g.cfg.PSrcCap:
-		c := g.capValue()
-		e, _ := g.monetaryExpr(g.asset, c, false)
-		return &SrcCapped{Cap: e, From: g.source(depth-1, false)}
+		return &SrcCapped{Cap: g.freeMonetary(g.asset), From: g.source(depth-1, false)}
 	case w < g.cfg.PSrcSeq+g.cfg.PSrcCap+g.cfg.PSrcAllot && !all:
 		k := g.r.Range(1, g.cfg.Fanout)
 		heads := g.portions(k)
@@ -398,8 +435,7 @@ func (g *lgen) dest(depth int) Dest {
 		d := &DstInorder{}
 		n := g.r.Range(0, g.cfg.Fanout)
 		for i := 0; i < n; i++ {
-			e, _ := g.monetaryExpr(g.asset, g.capValue(), false)
-			d.Clauses = append(d.Clauses, &DstClause{Cap: e, To: g.kod(depth - 1)})
+			d.Clauses = append(d.Clauses, &DstClause{Cap: g.freeMonetary(g.asset), To: g.kod(depth - 1)})
 		}
 		d.Remaining = g.kod(depth - 1)
 		return d
@@ -466,8 +502,21 @@ func (g *lgen) stmt() {
 				Origin: &Call{Name: fn, Args: []Expr{&Account{Name: acct}, &Asset{Name: g.asset}}}})
 			g.c.Tags["origin"] = true
 			e = &Var{Name: name}
+		} else if prev := g.lastAmt[g.asset]; prev != nil && g.pct(20) {
+			// the amount variable of an earlier statement is used again
+			e, set = CopyExpr(prev.expr), prev.set
+			g.c.Tags["amount-variable-reused"] = true
 		} else {
 			e, set = g.monetaryExpr(g.asset, n, true)
+			switch x := e.(type) {
+			case *Var:
+				g.lastAmt[g.asset] = &amtVar{expr: x, set: set}
+			case *Mon:
+				if v, ok := x.Amount.(*Var); ok {
+					_ = v
+					g.lastAmt[g.asset] = &amtVar{expr: x, set: set}
+				}
+			}
 		}
 		src := g.source(g.r.Range(0, g.cfg.Depth), false)
 		dst := g.dest(g.r.Range(0, g.cfg.Depth))
@@ -523,7 +572,8 @@ func Balance(r *rng.R, pBig, pNeg int) *big.Int {
 func GenLedger(r *rng.R, cfg LCfg) *Case {
 	c := &Case{Script: &Script{}, Vars: map[string]string{}, Balances: map[string]map[string]*big.Int{},
 		Meta: map[string]map[string]string{}, Flags: map[string]bool{}, Tags: map[string]bool{}}
-	g := &lgen{r: r, cfg: cfg, c: c, acctVars: map[string]string{}}
+	g := &lgen{r: r, cfg: cfg, c: c, acctVars: map[string]string{}, numVars: map[string]string{}, porVars: map[string]string{},
+		monVars: map[string][]string{}, lastAmt: map[string]*amtVar{}}
 	g.asset = rng.PickOf(r, cfg.Assets)
 	n := r.Range(cfg.MinStmts, cfg.MaxStmts)
 	for i := 0; i < n; i++ {
@@ -547,4 +597,37 @@ func GenLedger(r *rng.R, cfg LCfg) *Case {
 		}
 	}
 	return c
+}
+
+// CopyExpr deep-copies an expression (tree nodes are identified by address, so a node must
+// never occur at two places).
+func CopyExpr(e Expr) Expr {
+	switch e := e.(type) {
+	case *Var:
+		c := *e
+		return &c
+	case *Asset:
+		c := *e
+		return &c
+	case *Account:
+		c := *e
+		return &c
+	case *Str:
+		c := *e
+		return &c
+	case *Num:
+		c := *e
+		return &c
+	case *Ratio:
+		c := *e
+		return &c
+	case *Percent:
+		c := *e
+		return &c
+	case *Mon:
+		return &Mon{Asset: CopyExpr(e.Asset), Amount: CopyExpr(e.Amount)}
+	case *Infix:
+		return &Infix{Op: e.Op, L: CopyExpr(e.L), R: CopyExpr(e.R)}
+	}
+	return e
 }
